@@ -1,4 +1,5 @@
 """C04 - simplification preserves values (structural part)."""
+import re
 from .. import ast as A
 from .. import simplify as S
 from .. import terms as T
@@ -27,6 +28,46 @@ def r2c_tracing_operand_order(rule, root=None):
                 rule.ok("%s:%s = %s" % (label, variant, T.show(val)), file=V.VM, line=arm["ln"])
 
 
+
+IVAL = "fidget-core/src/types/interval.rs"
+
+
+def r6_interval_choice(rule, root=None):
+    """Interval::min_choice / max_choice decide Left / Right only when the operands are *strictly*
+    separated (touching intervals tie, and on a tie the point evaluators return the other operand:
+    +0.0 vs -0.0).  Read as a set of (smaller, larger) strict orderings, however each is spelled."""
+    want = {
+        "min_choice": {"Left": ("self.upper", "rhs.lower"), "Right": ("rhs.upper", "self.lower")},
+        "max_choice": {"Left": ("rhs.upper", "self.lower"), "Right": ("self.upper", "rhs.lower")},
+    }
+    for name, w in want.items():
+        fn = A.find_fn(IVAL, name, self_ty="Interval", root=root)
+        got = {}
+        for n in A.walk(fn["body"]):
+            segs = A.path_segs(n) if n.get("k") == "Path" else None
+            if segs and segs[0] == "Choice" and segs[-1] in ("Left", "Right"):
+                conds = A.enclosing_conds(fn["body"], n) or []
+                got.setdefault(segs[-1], []).append(conds)
+        for side in ("Left", "Right"):
+            cl = got.get(side, [])
+            if len(cl) != 1 or not cl[0]:
+                rule.bad("%s|%s|shape" % (name, side), "Interval::%s: Choice::%s must be decided under one comparison of the operands' bounds (found %s)" % (name, side, cl), A.where(fn))
+                continue
+            c = cl[0][-1]  # the innermost condition decides this side; outer ones are negated earlier tests
+            m = re.fullmatch(r"\(?([a-z_.]+)(<|>|<=|>=)([a-z_.]+)\)?", c)
+            if not m:
+                rule.bad("%s|%s|cond" % (name, side), "Interval::%s decides Choice::%s under `%s`, not a comparison of bounds" % (name, side, c), A.where(fn))
+                continue
+            l, op, r = m.groups()
+            order = (l, r) if op in ("<", "<=") else (r, l)
+            if op in ("<=", ">="):
+                rule.bad("%s|%s|strict" % (name, side), "Interval::%s decides Choice::%s under `%s`: touching intervals must stay Choice::Both (on a tie the point evaluators return the other operand, e.g. +0.0 vs -0.0)" % (name, side, c), A.where(fn))
+            elif order != w[side]:
+                rule.bad("%s|%s|bounds" % (name, side), "Interval::%s decides Choice::%s when %s < %s; it is only right when %s < %s" % (name, side, order[0], order[1], w[side][0], w[side][1]), A.where(fn))
+            else:
+                rule.ok("Interval::%s: %s iff %s < %s (strict)" % (name, side, order[0], order[1]), file=IVAL, line=fn["ln"])
+
+
 def run(ctx):
     r = ctx.rule("R1", "simplify consumes exactly one choice per choice op on every path", 52 + 1)
     ctx.guarded(r, lambda rule: S.r1_choice_consumption(rule))
@@ -43,5 +84,7 @@ def run(ctx):
     r = ctx.rule("R7", "native tracing assemblers follow the choice protocol simplify relies on", 2 * 26)
     for kind in AC.TRACING:
         ctx.guarded(r, AC.check_choice_protocol, kind)
+    r = ctx.rule("R6", "interval min/max choices are Left / Right only for strictly separated operands", 4)
+    ctx.guarded(r, r6_interval_choice)
     r = ctx.rule("R4", "a cached simplification is reused only for the same trace; new children are keyed by a copy of their trace", 11)
     ctx.guarded(r, RH.r_cache_key)
